@@ -840,6 +840,11 @@ def sysRunKeys (beh : Nat → List SysOp) : SysReg → List Nat → SysReg × Li
 def sysRun (beh : Nat → List SysOp) (r : SysReg) : SysReg × List (Nat × Nat) :=
   sysRunKeys beh r (r.map (·.1))
 
+/-- `CmdPeriod.do_once(action, *args)`: every call registers a NEW wrapper (key `k`) that removes itself
+    and then calls the action — as behaviours: keys in `once` remove themselves, the others leave the
+    registry alone -/
+def onceBeh (once : Nat → Bool) (a : Nat) : List SysOp := if once a then [.remove a] else []
+
 /-- `ServerAction._servers`: ordered dict server ↦ ordered dict action ↦ args.
     Server keys: 0 = `'default'`, 1 = `'all'`, n + 2 = server object n -/
 abbrev SrvReg := List (Nat × SysReg)
